@@ -75,12 +75,38 @@ def run_impl(cs):
     return got, crashes
 
 
+def sweep():
+    """every 32-bit value outside the enumerations, on an optimised build: -> (list of (fn, value) answered non-NULL, note)"""
+    exe = vlib.build_harness("names_fast", os.path.join(vlib.VERIF, "harness", "names.c"), san="none", opt="-O2")
+    en = enums_from_headers()
+    text = "S %d\nM %d\n" % (max(v for _, v in en["s"]) + 1, max(v for _, v in en["m"]) + 1)
+    rc, lines = vlib.run_lines(exe, text, timeout=900)
+    found, done = [], 0
+    for ln in lines:
+        p = ln.split()
+        if len(p) == 3 and p[2] == "nonnull":
+            found.append((p[0], int(p[1])))
+        if len(p) == 3 and p[1] == "sweep":
+            done += 1
+    return found, ("complete" if done == 2 and rc == 0 else "sweep ended early (rc %s): %s" % (rc, " | ".join(lines[-3:])))
+
+
 def run(chk):
     rnd = vlib.rng(20)
     pr = vlib.check_proofs("C20", THEOREMS)
     chk.proof = pr
     cs = cases(chk.tier, rnd)
     got, crashes = run_impl(cs)
+    swept = None
+    if chk.tier != "quick" or not pr.ok:
+        # thorough, or a proof no longer checks: look at all 2^32 values for a failing input
+        found, swept = sweep()
+        extra = [(k, v, None) for k, v in found if (k, v) not in set((a, b) for a, b, _ in cs)]
+        if extra:
+            g2, c2 = run_impl(extra)
+            got.update(g2)
+            crashes += c2
+            cs = cs + extra
     bad = []
     for c, tail in crashes:
         bad.append({"fn": c[0], "value": c[1], "expected": c[2] or "NULL", "got": "crash (sanitizer)", "detail": tail[-1500:]})
@@ -96,7 +122,7 @@ def run(chk):
         "rule": "every enumerator of both enums (names parsed from the public headers, independently of the translator) plus values "
                 "around and far outside the enumeration; non-trivial = an enumerator or a value within 300 of the enumeration",
         "samples": [list(c) for c in cs[:6]] + [list(c) for c in cs[-3:]],
-        "exhaustive": False,
+        "exhaustive": swept == "complete", "sweep_of_all_32_bit_values": swept or "not run in this tier (runs in thorough, and whenever a proof breaks)",
         "tie": "(a) translator: enums, tables and both function bodies regenerated into Gen/Generated.v; (b) real functions under ASan",
     })
     chk.assumptions += ["enum objects are 32 bits wide (theorems quantify over -2^31 <= v < 2^32)", "LP64 pointer size in sizeof(table)/sizeof(entry)"]
